@@ -431,9 +431,15 @@ def extract(repo):
         for it in methods:
             nm = it.name.split('::')[1]
             if nm == 'bump':
-                mm = re.search(r'self\.fuel\.set\((\d+)\)', it.body)
-                if mm:
+                mm = re.search(r'self\.fuel\.set\(\s*(\d+|[A-Z_][A-Z_0-9]*)\s*\)', it.body)
+                if mm and mm.group(1).isdigit():
                     fuel_reset = int(mm.group(1))
+                elif mm:
+                    # a named integer constant: its literal initialiser
+                    cm = [c for c in items if c.kind == 'type' and c.name == mm.group(1)]
+                    lm_ = re.search(r'=\s*(\d[\d_]*)\s*;', cm[0].text) if cm else None
+                    if lm_:
+                        fuel_reset = int(lm_.group(1).replace('_', ''))
             it.body = re.sub(r'self\.fuel\.set\(([^;]*)\);', r'self.fuel = \1;', it.body).replace('self.fuel.get()', 'self.fuel')
             if nm in muts and re.search(r'\(\s*&self\b', it.header):
                 it.header = re.sub(r'\(\s*&self\b', '(&mut self', it.header)
